@@ -435,4 +435,32 @@ theorem split_where_src_eq (fuel : Nat) (collection : List Value) (predicate : V
     rw [if_pos hs'] at h2
     simpa [hs', Ne.symm hs'] using h2
 
+/-! ### dictionaries keyed by yaql values -/
+
+theorem contains_key_src_eq (d : List (Value × Value)) (key : Value) :
+    SrcSeq.contains_key d key = Seq.containsKey d key := by
+  simp [SrcSeq.contains_key, Seq.containsKey]
+
+theorem contains_value_src_eq (d : List (Value × Value)) (value : Value) :
+    SrcSeq.contains_value d value = Seq.containsValue d value := by
+  simp [SrcSeq.contains_value, Seq.containsValue, Py.dictValues, List.any_map, Function.comp_def]
+
+theorem dict_indexer_with_default_src_eq (d : List (Value × Value)) (key default_ : Value) :
+    SrcSeq.dict_indexer_with_default d key default_ = Seq.dictGet d key default_ := by
+  simp [SrcSeq.dict_indexer_with_default, Seq.dictGet]
+
+theorem dict_get_src_eq (d : List (Value × Value)) (key default_ : Value) :
+    SrcSeq.dict_get d key default_ = Seq.dictGet d key default_ := by
+  simp [SrcSeq.dict_get, Seq.dictGet]
+
+theorem dict_indexer_src_eq (d : List (Value × Value)) (key : Value) :
+    SrcSeq.dict_indexer d key = Py.ofOption (Seq.dGet d key) .keyError := by
+  simp [SrcSeq.dict_indexer]
+
+theorem dict_keys_src_eq (d : List (Value × Value)) : SrcSeq.dict_keys d = Seq.dictKeys d := by
+  simp [SrcSeq.dict_keys, Seq.dictKeys, Py.dictKeys]
+
+theorem dict_values_src_eq (d : List (Value × Value)) : SrcSeq.dict_values d = Seq.dictValues d := by
+  simp [SrcSeq.dict_values, Seq.dictValues, Py.dictValues]
+
 end Yaql.Props.SrcSeq
